@@ -11,8 +11,9 @@ func init() {
 		fs := flag.NewFlagSet("dt-exec", flag.ExitOnError)
 		in := fs.String("in", "", "cases ndjson")
 		out := fs.String("out", "", "trace ndjson")
+		par := fs.Int("par", 1, "number of goroutines calling at the same time")
 		_ = fs.Parse(args)
-		return delaunay.Run(*in, *out)
+		return delaunay.Run(*in, *out, *par)
 	}
 	commands["dt-random"] = func(args []string) error {
 		fs := flag.NewFlagSet("dt-random", flag.ExitOnError)
